@@ -652,7 +652,8 @@ def wl_cia(ctx, rng):
             first = list(qs)
             nt = int(rng.integers(150, 300)) if ctx.tier == 'quick' else int(rng.integers(400, 2000))
             qs += [('interior', float(rng.uniform(T[0], T[-1]))) for _ in range(nt)]
-            qs += [first[int(k)] for k in rng.integers(0, len(first), 12)]
+            qs += [first[int(k)] for k in rng.integers(0, len(first), 6)]
+            qs += [qs[int(k)] for k in rng.integers(0, len(qs), 14)]          # (from anywhere in the history)
             ctx.observe('history:hundreds-of-temperatures-then-earlier-ones-again')
         offgrid = np.sort(rng.uniform(wn[0] * 0.8, wn[-1] * 1.2, int(rng.integers(2, 12))))
         if exp.get('shared_wavenumber'):
